@@ -352,7 +352,10 @@ def decode_stream(
                 hv.append(("too-big", P1009))
             elif tot == max_msg_size:
                 boundary = True
-        if boundary and not hv:
+        if boundary and hv:
+            # P-size-boundary applies to a violating frame as well: answering it with 1009 is allowed
+            hv.append(("size-boundary", P1009))
+        elif boundary:
             r.boundary_hit = True
             if not accept_boundary():
                 hv.append(("too-big", P1009))
